@@ -18,7 +18,7 @@ PROP = "C15"
 LEVEL = "exploration"
 SHARDS = {"quick": 4, "thorough": 16}
 THOROUGH_DEPTH = 20      # thorough tier = this many times the base thorough budget (VERIF_DEPTH overrides)
-ROUTES = ["history/NED", "history/ENU", "constructor-vs-method", "elements", "longitude+-180", "poles", "equator/prime-meridian"]
+ROUTES = ["history/NED", "history/ENU", "constructor-vs-method", "elements", "longitude+-180", "poles", "equator/prime-meridian", "threads"]
 REGIONS = {"history": 80, "entry:on-grid": 30, "entry:off-grid": 30, "entry:datetime": 20, "place:special": 40}
 PROBES = [("ahrs.utils.wmm", "WMM.magnetic_field"), ("ahrs.utils.wmm", "WMM.reset_coefficients"), ("ahrs.utils.wmm", "WMM.load_coefficients"),
           ("ahrs.utils.wmm", "WMM.denormalize_coefficients"), ("ahrs.utils.wmm", "WMM.reset_date")]
@@ -264,5 +264,40 @@ def check_place(case, ctx):
                 ctx.le("at a pole H and F do not depend on the longitude", max(abs(a["H"] - b["H"]), abs(a["F"] - b["F"])), 1e-6, route=r)
 
 
+def check_threads(case, ctx):
+    """Two or three WMM objects queried in concurrent threads (thread switches forced inside the library): each answers as it does alone."""
+    from ahrs.utils.wmm import WMM
+    from .. import threads
+    lat, lon, h, frame = case.p["lat"], case.p["lon"], case.p["h"], case.p["frame"]
+    date = case.p["date"]
+    d_arg = datetime.date(*date) if isinstance(date, list) else date
+    r_ = np.random.Generator(np.random.PCG64(int(abs(lat) * 1e6) + 17))
+    qs = [(lat, lon, h, d_arg)] + [(float(r_.uniform(-89, 89)), float(r_.uniform(-179, 179)), float(r_.uniform(0, 500)), draw_date(r_, bool(k % 2))) for k in range(1 + int(r_.integers(2)))]
+
+    def ask(q):
+        def f():
+            w = WMM(frame=frame)
+            w.magnetic_field(q[0], q[1], q[2], date=q[3])
+            return np.array([w.X, w.Y, w.Z, w.H, w.F, w.I, w.D, w.GV], float)
+        return f
+    alone = [call(ask(q)) for q in qs]
+    if not all(ctx.returned(o, route="threads") for o in alone):
+        return
+    outs, ny = threads.run([ask(q) for q in qs], seed=int(abs(lon) * 1e6))
+    for j, (kind, v) in enumerate(outs):
+        if kind != "ok":
+            ctx.ok("a query answered in its own thread raises nothing it does not raise alone", False, {"error": v, "query": j}, route="threads")
+            continue
+        ctx.ok("objects queried in concurrent threads answer as they do alone (all eight elements, bit for bit)", bool(np.array_equal(v, alone[j].value, equal_nan=True)),
+               {"query": j, "objects": len(qs), "yields_injected": ny, "max_diff": float(np.nanmax(np.abs(v - alone[j].value)))}, route="threads")
+
+
+def extra_evidence():
+    from .. import threads
+    return {"threaded_runs": threads.STATS["runs"], "thread_yields_injected_inside_the_library": threads.STATS["yields"]}
+
+
 def check(case, ctx):
     {"history": check_history, "entry": check_entry, "place": check_place}[case.route](case, ctx)
+    if case.route == "entry" and int(abs(case.p["lat"]) * 1e3) % 3 == 0:
+        check_threads(case, ctx)
